@@ -180,3 +180,18 @@ package index
 //@   prop C01
 //@   requires a != nil && b != nil
 //@   ensures result == (a.LastPacketTimeNS < b.LastPacketTimeNS)
+
+// Finalize: the magic that makes a reader accept the file is put into the header only after all seven sections and
+// all four lookup tables were written and the buffer was flushed without an error; an index file whose writing is
+// interrupted before that point is rejected at start-up ("index magic written last", C12).
+//@ log (*Writer).Finalize$1
+//@ log (*Writer).Finalize$9
+//@ log (*bufio.Writer).Flush
+//@ log (*os.File).Seek
+//@ func (*Writer).Finalize
+//@   prop C12
+//@   nosafety
+//@   noframe
+//@   assert before call copy#1: magic_last: ncalls("(*Writer).Finalize$1") == 7 && ncalls("(*Writer).Finalize$9") == 4 && \
+//@       ncalls("(*bufio.Writer).Flush") == 1 && isnil(resultof("(*bufio.Writer).Flush#1")) && ncalls("(*os.File).Seek") == 1
+//@   ensures complete: implies(isnil(result1), ncalls("(*bufio.Writer).Flush") == 2)
